@@ -85,7 +85,9 @@ func TestC10(t *testing.T) {
 	}
 	functionLevel(r)
 	socketForms(r)
+	wssSNI(r)
 	subnetSpellings(r)
+	subnetSpellingsAcrossRestart(r)
 	crashPoints(r)
 	datastoreErrors(r)
 	loadErrors(r)
@@ -297,6 +299,90 @@ func subnetSpellings(r *run.R) {
 			}
 			r.Count("spelling.unblock_effective", 1)
 		}
+	}
+}
+
+// subnetSpellingsAcrossRestart: the SAME spelling throughout (no ambiguity about what matches), with a
+// restart between the block and the unblock: a subnet blocked with host bits set, reopened, must still be
+// enforced; unblocking it with the very same argument must then lift it - in that process and after
+// another restart.
+func subnetSpellingsAcrossRestart(r *run.R) {
+	type tc struct{ name, cidr, inside string }
+	for _, c := range []tc{
+		{"v4-hostbits", "10.1.2.77/24", "/ip4/10.1.2.3/tcp/4001"},
+		{"v4-canonical", "10.1.2.0/24", "/ip4/10.1.2.3/tcp/4001"},
+		{"v6-hostbits", "2001:db8::1:2/32", "/ip6/2001:db8:5::9/tcp/4001"},
+		{"v4-mapped-hostbits", "::ffff:10.1.2.77/120", "/ip4/10.1.2.3/tcp/4001"},
+	} {
+		caseID := "fn/subnet-spellings-across-restart/" + c.name
+		if !r.Want(caseID) {
+			continue
+		}
+		r.Eval(1)
+		hip, hn, err := net.ParseCIDR(c.cidr)
+		if err != nil {
+			r.Inconclusive(caseID, err.Error())
+			continue
+		}
+		if hn.IP.To4() != nil && len(hn.Mask) == net.IPv4len {
+			hip = hip.To4()
+		}
+		arg := &net.IPNet{IP: hip, Mask: hn.Mask}
+		probe := mustMA(c.inside)
+		cm := &cmaddrs{local: localMA, remote: probe}
+		detail := map[string]any{"subnet_arg": arg.String(), "probe": c.inside}
+		rec := newRecDS()
+		g, err := conngater.NewBasicConnectionGater(rec)
+		if err != nil {
+			r.Inconclusive(caseID, err.Error())
+			continue
+		}
+		if err := g.BlockSubnet(arg); err != nil {
+			r.Count("spelling_restart.block_returned_error", 1)
+			continue
+		}
+		if g.InterceptAddrDial(allPeers[0], probe) || g.InterceptAccept(cm) {
+			r.Count("spelling_restart.block_not_enforced_live(judged elsewhere)", 1)
+			continue
+		}
+		g2, err := reopen(rec.snapshot())
+		if err != nil {
+			r.Violation("reopen/constructor-error", caseID, err.Error(), detail)
+			continue
+		}
+		if g2.InterceptAddrDial(allPeers[0], probe) || g2.InterceptAccept(cm) {
+			r.Violation("reopen/subnet-spelling/admitted-blocked/same-spelling", caseID,
+				fmt.Sprintf("BlockSubnet(%s) returned success; after reopening %s is allowed", arg, c.inside), detail)
+			continue
+		}
+		r.Count("spelling_restart.block_enforced_after_reopen", 1)
+		// the reopened gater wrote nothing yet: it works on a copy of the same datastore content
+		rec2 := fromImage(rec.snapshot())
+		g3, err := conngater.NewBasicConnectionGater(rec2)
+		if err != nil {
+			r.Violation("reopen/constructor-error", caseID, err.Error(), detail)
+			continue
+		}
+		if err := g3.UnblockSubnet(arg); err != nil {
+			r.Count("spelling_restart.unblock_returned_error", 1)
+			continue
+		}
+		if !g3.InterceptAddrDial(allPeers[0], probe) || !g3.InterceptAccept(cm) {
+			r.Violation("reopen/subnet-spelling/unblock-of-the-same-argument-returned-success-still-enforced", caseID,
+				fmt.Sprintf("BlockSubnet(%s); restart; UnblockSubnet(%s) returned success but %s is still refused; ListBlockedSubnets=%v", arg, arg, c.inside, g3.ListBlockedSubnets()), detail)
+			continue
+		}
+		g4, err := reopen(rec2.snapshot())
+		if err != nil {
+			r.Violation("reopen/constructor-error", caseID, err.Error(), detail)
+			continue
+		}
+		if !g4.InterceptAddrDial(allPeers[0], probe) || !g4.InterceptAccept(cm) {
+			r.Violation("reopen/subnet-spelling/unblock-of-the-same-argument-lost-after-second-restart", caseID,
+				fmt.Sprintf("BlockSubnet(%s); restart; UnblockSubnet(%s) returned success; after another restart %s is refused again", arg, arg, c.inside), detail)
+			continue
+		}
+		r.Count("spelling_restart.unblock_effective", 1)
 	}
 }
 
